@@ -502,12 +502,12 @@ type poolDie struct {
 }
 
 type poolListing struct {
-	head    int64 // successes (wod) / result (dc)
-	total   int64
-	rounds  int64 // 1 when not shown
-	groups  [][]poolDie
-	fumble  bool // dc: 大失败
-	listed  bool
+	head   int64 // successes (wod) / result (dc)
+	total  int64
+	rounds int64 // 1 when not shown
+	groups [][]poolDie
+	fumble bool // dc: 大失败
+	listed bool
 }
 
 func parsePoolListing(l, word string) (*poolListing, error) {
